@@ -469,7 +469,10 @@ theorem c01_message_framed_exactly (cfg : ConnCfg) (hmf : cfg.maxField ≥ 1026)
 /-- **No request smuggling.**  For every list of well-formed messages `ms` (no body, Content-Length
     body of arbitrary bytes, or chunked body in any accepted spelling), feeding their concatenation
     on one connection yields exactly `ms.length` request events, in order, each with exactly its
-    payload, and consumes exactly the bytes: no body byte is ever parsed as part of a request head. -/
+    payload, and consumes exactly the bytes: no body byte is ever parsed as part of a request head.
+    (Configuration hypotheses, not restrictions of the statement: no server.max-request-size limit,
+    max-request-field-size at least 1026 so that a last-chunk line fits, keep-alive enabled and the
+    pipeline within server.max-keep-alive-requests -- otherwise the server closes earlier by design.) -/
 theorem c01_no_smuggling (cfg : ConnCfg) (hmf : cfg.maxField ≥ 1026) (hms : cfg.maxSize = 0)
     (hidle : cfg.kaIdle ≠ 0) (ms : List Msg) (hw : ∀ m ∈ ms, WellFormed cfg m) (count : Nat) (bo : Bool)
     (hcount : count + ms.length ≤ cfg.maxKaReqs + 1) :
@@ -689,8 +692,8 @@ theorem c01_blank_line_between_requests (cfg : ConnCfg) (count : Nat) (H : Bytes
 
 /-! non-vacuity (connection level) -/
 section Examples
-/-- default parse options; every request is handled by a body-reading handler -/
-def exCfg : ConnCfg := { opts := ⟨0x257f⟩, handler := fun _ _ => { status := 200, readsBody := true } }
+/-- the default server.http-parseopts (0x255f); every request is handled by a body-reading handler -/
+def exCfg : ConnCfg := { opts := ⟨9567⟩, handler := fun _ _ => { status := 200, readsBody := true } }
 
 /-- what the parser reads from a head (dummy values if it does not accept it) -/
 def parsed (head : Bytes) : PReq × Target :=
